@@ -289,6 +289,21 @@ func runC18(b *runner.Batch) {
 	l63 := rep("a", 63)
 	n255 := l63 + "." + l63 + "." + l63 + "." + rep("a", 59) + ".com"
 	boundary = append(boundary, n255, "a"+n255, n255[1:], strings.ToUpper(n255), strings.Replace(n255, "a.", "_.", 1))
+	// over-long names whose every label is valid: only the total length is wrong (seeded change C18-3)
+	for _, total := range []int{254, 255, 256, 257, 300, 511, 1000} {
+		// labels of 63 bytes, a first label taking the remainder, the TLD "com"
+		rest := total - len(".com")
+		var labels []string
+		for rest > 63 {
+			labels = append(labels, l63)
+			rest -= 64
+		}
+		if rest > 0 {
+			labels = append([]string{rep("b", rest)}, labels...)
+		}
+		boundary = append(boundary, strings.Join(labels, ".")+".com")
+	}
+	boundary = append(boundary, strings.Repeat("a.", 126)+"com", strings.Repeat("a.", 127)+"com", strings.Repeat("a.", 128)+"com", strings.Repeat("a.", 300)+"com")
 	if k == 0 {
 		for _, s := range boundary {
 			c.judgeName(s)
